@@ -68,7 +68,8 @@ func runC12(t *Trace, r *Rng, tier string, _ []string) {
 		ci := r.Intn(12)
 		keep := 1 + ci%3
 		conf := c03Config(ci, wl%4 == 3)
-		cat := fmt.Sprintf("keep%d", keep)
+		cat := "retention"
+		t.Add(fmt.Sprintf("workloads:numSnapshotsToKeep=%d", keep), 1)
 		t.Add(fmt.Sprintf("workloads:conf%d", ci%4), 1)
 		var mu sync.Mutex
 		var evs []string
